@@ -3,7 +3,7 @@
 From Coq Require Extraction.
 From Coq Require Import ExtrOcamlBasic.
 From Coq Require Import List NArith.
-From SosModel Require Import base.Sha256 model.Merkle base.Bytes model.Formats model.EventLog.
+From SosModel Require Import base.Sha256 model.Merkle base.Bytes model.Formats model.EventLog model.MergePatches.
 Extraction "../driver/model.ml"
   Sha256.sha256
   Merkle.root Merkle.head Merkle.proof_at Merkle.tree_compare Merkle.verify_leaves
@@ -14,4 +14,5 @@ Extraction "../driver/model.ml"
   Formats.p_cproof Formats.e_cproof Formats.p_cstate Formats.e_cstate
   Formats.p_comparison Formats.e_comparison Formats.decode_top
   EventLog.log_apply EventLog.log_reopen EventLog.log_clear EventLog.log_rewind
-  EventLog.log_patch_checked EventLog.log_replace_all EventLog.rewind_and_patch EventLog.proof_eqb.
+  EventLog.log_patch_checked EventLog.log_replace_all EventLog.rewind_and_patch EventLog.proof_eqb
+  MergePatches.merge_patches.
